@@ -137,8 +137,7 @@ Definition inner (p : plat) (meth site : string) (c : cond) : option res :=
       else if g_aix_io meth site && negb (listed s) then Some RNoSuch
       else None
   | Windows =>
-      if g_win_ppid meth then Some RRaw                                        (* not decorated *)
-      else if is_partial e && g_win_partial meth then Some RDenied             (* retry_error_partial_copy *)
+      if is_partial e && g_win_partial meth then Some RDenied                  (* retry_error_partial_copy *)
       else if is_permission_err e && g_win_fallback meth site then Some RVal   (* slower route through proc_info *)
       else None
   | _ => None
@@ -146,6 +145,14 @@ Definition inner (p : plat) (meth site : string) (c : cond) : option res :=
 
 Definition method_outcome (p : plat) (meth site : string) (c : cond) : res :=
   match inner p meth site c with Some r => r | None => wrap p c end.
+
+(* the code before fix a2d103c: _pswindows.Process.ppid() carried no decorator, so whatever
+   ppid_map() raised left the method unchanged (kept only to state what the fix repaired) *)
+Definition method_outcome_pre_a2d103c (p : plat) (meth site : string) (c : cond) : res :=
+  match p with
+  | Windows => if g_win_ppid meth then RRaw else method_outcome p meth site c
+  | _ => method_outcome p meth site c
+  end.
 
 (* ------------------------------------------------------------------ slot usage rows *)
 (* where a returned field comes from, as decoded by the probe *)
